@@ -206,6 +206,38 @@ def main():
         for b in ctx["bad"][:3]:
             out["bad"].append({"where": "pedigree/served-value", "n_reads": n_reads, "p_more_reads_than_q": n_reads[0] > n_reads[1], **b})
 
+        # mixed ploidy, every listing order of the individuals: one cache shared by samples whose genotype spaces differ
+        # in size (a tetraploid and a diploid founder, their triploid progeny, a second diploid founder, the
+        # diploid progeny of the two diploids)
+        base_tau = {"T": (2, 2), "D": (1, 1), "C": (2, 1), "E": (1, 1), "K": (1, 1)}
+        base_par = {"T": (None, None), "D": (None, None), "C": ("T", "D"), "E": (None, None), "K": ("D", "E")}
+        names = list(base_tau)
+        r.shuffle(names)
+        pos = {nm: i for i, nm in enumerate(names)}
+        N = len(names)
+        tau5 = np.array([base_tau[nm] for nm in names], dtype=np.int64)
+        pl5 = tau5.sum(axis=1)
+        par5 = np.array([[-1 if q is None else pos[q] for q in base_par[nm]] for nm in names], dtype=np.int64)
+        mp = int(pl5.max())
+        n_reads5 = [r.randint(1, 6) for _ in range(N)]
+        R5 = max(n_reads5)
+        dists5 = np.full((N, R5, nb, 2), np.nan); cnts5 = np.zeros((N, R5), dtype=np.int64)
+        geno5 = np.full((N, mp), -2, dtype=np.int64)
+        for s_ in range(N):
+            geno5[s_, :pl5[s_]] = [r.randrange(n) for _ in range(pl5[s_])]
+            rd, ct = G.gen_reads(r, n_alleles, n_reads5[s_], haps=[haps[a] for a in geno5[s_, :pl5[s_]]], gap=0.0, style="encoded")
+            dists5[s_, :n_reads5[s_]] = rd; cnts5[s_, :n_reads5[s_]] = ct
+        ctx.update({"dists": dists5, "counts": cnts5, "served": 0, "bad": []})
+        np.random.seed(11 + it)
+        pmcmc.mcmc_sampler(geno5, pl5, par5, tau5, np.zeros((N, 2)), np.full((N, 2), 0.05), dists5, cnts5, harr, logf,
+                           n_steps=int(10 * max(1, scale)), annealing=0, step_type=r.choice([0, 1]), swap_parental_alleles=True)
+        out["pedigree"].append({"order": names, "ploidies": [int(x) for x in pl5], "n_reads": n_reads5, "served": ctx["served"],
+                                "incoherent": len(ctx["bad"]), "first": ctx["bad"][:2]})
+        for b in ctx["bad"][:3]:
+            out["bad"].append({"where": "pedigree/served-value (mixed ploidy)", "order": names, "ploidies": [int(x) for x in pl5],
+                               "n_reads": n_reads5, **b})
+        ctx.update({"dists": dists, "counts": cnts, "served": 0, "bad": []})
+
         # caller-supplied cache after one swap step
         cache = {(-1, -1): np.nan}
         g2 = geno.copy()
@@ -222,7 +254,13 @@ def main():
                                     llk_cache=cache, dosage=z(), dosage_p=z(), dosage_q=z(), gamete_p=z(), gamete_q=z(), constraint_p=z(),
                                     constraint_q=z(), dosage_log_frequencies=np.zeros(ploidy))
         n_bad = 0
-        for (s, gi), v in cache.items():
+        entries = [(k, v) for k, v in cache.items() if isinstance(k, tuple) and len(k) == 2]
+        if len(entries) != len(cache):
+            # the key format is not (sample, genotype index): the entries cannot be decoded here; the served-value
+            # monitors above are what covers the cache then
+            out.setdefault("notes", []).append("pedigree cache keys are not (sample, genotype) pairs: entry audit skipped")
+            entries = []
+        for (s, gi), v in entries:
             if s < 0:
                 continue
             al = index_as_genotype_alleles(gi, ploidy)
